@@ -605,6 +605,7 @@ def check_estimator(ctx, name, gen_seed, n_batches=2):
         except Exception as e:
             return [("%s.fit:raises" % name, "fit raises on a valid training set",
                      "%s: %s" % (type(e).__name__, str(e)[:150]), "a fitted model")], info
+        meths = list(meths) + [m for m in _row_methods(model, d) if m not in meths]
         # route "used, then fitted again": the object served predictions for an earlier training set before the fit whose
         # model is examined - the batch outputs and the copies below describe the LAST fit only
         target = {"PR": "yr", "PC": "yc", "DT": "yc", "PT": "yr", "KM": None, "CK": None}.get(name[:2], "skip")
@@ -615,7 +616,7 @@ def check_estimator(ctx, name, gen_seed, n_batches=2):
             try:
                 B0 = _batch(rng, d)
                 for meth in meths:
-                    getattr(model, meth)(B0)
+                    _rowfn(model, meth)(B0)
                 X2, yr2, yc2 = _data(rng, d=d)
                 if target is None:
                     model.fit(X2[:30])
@@ -642,7 +643,7 @@ def check_estimator(ctx, name, gen_seed, n_batches=2):
             ub = [i for i in range(G.shape[0]) if ids[i] < 0]
             sb = [i for i in range(G.shape[0]) if ids[i] >= 0]
             for meth in [m for m in meths if m != "transform_bins"]:
-                f = getattr(model, meth)
+                f = _rowfn(model, meth)
                 fullG = numpy.asarray(f(G))
                 for i in ub[:4]:
                     for rows_ in ([i], [i] + sb[:3], sb[:2] + [i] + sb[2:4]):
@@ -657,7 +658,7 @@ def check_estimator(ctx, name, gen_seed, n_batches=2):
             if B.shape[0] == 0:
                 continue
             for meth in meths:
-                f = getattr(model, meth)
+                f = _rowfn(model, meth)
                 full = numpy.asarray(f(B))
                 site = "%s.%s" % (cls, meth)
 
@@ -694,7 +695,7 @@ def check_estimator(ctx, name, gen_seed, n_batches=2):
                            pp.tolist()[:5], full[perm].tolist()[:5])
                 for how, m2 in copies.items():
                     try:
-                        o2 = numpy.asarray(getattr(m2, meth)(B))
+                        o2 = numpy.asarray(_rowfn(m2, meth)(B))
                     except Exception as e:
                         report(how, "%s copy cannot predict" % how, "%s: %s" % (type(e).__name__, str(e)[:120]),
                                "identical outputs")
@@ -710,7 +711,7 @@ def check_estimator(ctx, name, gen_seed, n_batches=2):
             if T0.shape[0] != T.shape[0] and T0.shape[0] > 0:       # keep the row count: repeat rows that have a route
                 T = T0[numpy.arange(m_tall) % T0.shape[0]]
             for meth in meths:
-                f = getattr(model, meth)
+                f = _rowfn(model, meth)
                 try:
                     full = numpy.asarray(f(T))
                     parts = [numpy.asarray(f(T[i:i + 97])) for i in range(0, m_tall, 97)]
@@ -732,10 +733,10 @@ def check_estimator(ctx, name, gen_seed, n_batches=2):
         B = _batch(rng, d)
         yB = numpy.zeros(B.shape[0], dtype=int)
         try:
-            first = {meth: numpy.asarray(getattr(model, meth)(B)).copy() for meth in meths}
+            first = {meth: numpy.asarray(_rowfn(model, meth)(B)).copy() for meth in meths}
             called = _call_everything(model, B, yB, skip=())
             for meth in meths:
-                again = numpy.asarray(getattr(model, meth)(B))
+                again = numpy.asarray(_rowfn(model, meth)(B))
                 if not same(first[meth], again, True):
                     bad.append(("%s.%s:changes-after-other-calls" % (cls, meth),
                                 "the output on a batch changes after other public methods (%s) were called on the fitted "
@@ -750,9 +751,9 @@ def check_estimator(ctx, name, gen_seed, n_batches=2):
             m2 = copies["clone_with_fitted_parameters"]
             Bq = _batch(rng, d)
             try:
-                before = [numpy.asarray(getattr(m2, meth)(Bq)).copy() for meth in meths]
+                before = [numpy.asarray(_rowfn(m2, meth)(Bq)).copy() for meth in meths]
                 touched = _scribble(model)
-                after = [numpy.asarray(getattr(m2, meth)(Bq)) for meth in meths]
+                after = [numpy.asarray(_rowfn(m2, meth)(Bq)) for meth in meths]
                 for meth, a, b in zip(meths, before, after):
                     if touched and not same(a, b, True):
                         bad.append(("%s.%s:clone-shares-memory-with-original" % (cls, meth),
@@ -765,6 +766,54 @@ def check_estimator(ctx, name, gen_seed, n_batches=2):
 
 
 TALL_ROWS = (1025, 2049, 4097, 1023, 2047, 4095, 8193)
+
+
+def _rowfn(model, meth):
+    """the bound method, its result made a dense array (decision_path returns a sparse matrix)"""
+    import numpy
+    f = getattr(model, meth)
+
+    def call(X):
+        out = f(X)
+        if hasattr(out, "todense"):
+            out = numpy.asarray(out.todense())
+        return out
+    return call
+
+
+def _row_methods(model, d):
+    """"every row-wise output": the public methods the package defines for the class that take exactly one required
+    argument and return, for batches of 5 and of 9 rows, an array / sparse matrix with 5 and 9 rows.  Found by calling
+    the CURRENT code, so that a row-wise method the hand-written menu does not name (decision_path, get_leaves_index,
+    transform_features, ...) is checked as well."""
+    import inspect
+    import numpy
+    out = []
+    for name in sorted(dir(type(model))):
+        if name.startswith("_") or name.startswith(("fit", "set_", "partial_fit", "score", "get_params")):
+            continue
+        f = getattr(type(model), name, None)
+        if not inspect.isfunction(f) or not (getattr(f, "__module__", "") or "").startswith("mlinsights"):
+            continue
+        try:
+            req = [p for p in list(inspect.signature(f).parameters.values())[1:]
+                   if p.default is inspect.Parameter.empty and p.kind in (p.POSITIONAL_ONLY, p.POSITIONAL_OR_KEYWORD)]
+        except (TypeError, ValueError):
+            continue
+        if len(req) != 1:
+            continue
+        try:
+            ok = True
+            for m in (5, 9):
+                B = numpy.array([[float((3 * i + 5 * j) % 11) for j in range(d)] for i in range(m)])
+                r = _rowfn(model, name)(B)
+                if not (isinstance(r, numpy.ndarray) and r.ndim >= 1 and r.shape[0] == m):
+                    ok = False
+            if ok:
+                out.append(name)
+        except Exception:  # noqa: BLE001
+            continue
+    return out
 
 
 def _drop_ties(model, B):
